@@ -21,7 +21,9 @@ def other_profiles(tier):
     return [("MCGenScope", {"MAXSTMTS": 4, "MAXDEPTH": 3 if q else 4, "EVENTS": 0}),
             ("MCGenFn", {"MAXSTMTS": 3 if q else 4, "MAXDEPTH": 3, "EVENTS": 0}),
             ("MCGenArr", {"MAXSTMTS": 3 if q else 4, "MAXDEPTH": 2, "EVENTS": 0, "ARRTY": "num", "ARRLOOP": "0"}),
-            ("MCGenMemFn", {"MAXSTMTS": 3 if q else 4, "MAXDEPTH": 3, "EVENTS": 0})]
+            ("MCGenMemFn", {"MAXSTMTS": 3 if q else 4, "MAXDEPTH": 3, "EVENTS": 0}),
+            # definitions in dead positions, called from live code (the plan configuration must not lose them)
+            ("MCGenDeadDef", {"MAXSTMTS": 4 if q else 5, "MAXDEPTH": 3, "EVENTS": 0})]
 
 
 def run(tier):
